@@ -6,6 +6,7 @@ package smtp_downstream
 // recipient; recipients incl. IDN domains with and without SMTPUTF8 on the next hop.
 
 import (
+	"net"
 	"context"
 	"fmt"
 	"sync"
@@ -39,6 +40,11 @@ func TestVerif_C09Lmtp(t *testing.T) {
 	pool := []string{"a@example.invalid", "A@example.invalid", "b@тест.invalid", "c@xn--e1aybc.invalid", "a@example.invalid", "d@EXAMPLE.invalid"}
 	for ci := 0; ci < n; ci++ {
 		r := vNewRand(uint64(950000 + ci))
+		// a port that is free right now (the package's TestMain picks one at random)
+		if l, err := net.Listen("tcp", "127.0.0.1:0"); err == nil {
+			testPort = fmt.Sprint(l.Addr().(*net.TCPAddr).Port)
+			l.Close()
+		}
 		utf8 := r.chance(50)
 		be, srv := testutils.SMTPServer(t, "127.0.0.1:"+testPort, func(s *smtp.Server) { s.LMTP = true; s.EnableSMTPUTF8 = utf8 })
 		var rcpts []string
